@@ -19,6 +19,21 @@ def add(*a, **k):
 
 
 # ----------------------------------------------------------------------------- C04
+add('C04', 'breaker', 'align-nests-by-column', [(DOC, '''        return Nest(column - indent, doc)''', '''        return Nest(column, doc)''')], 'C04.n')
+add('C04', 'breaker', 'align-ignores-column', [(DOC, '''        return Nest(column - indent, doc)''', '''        return Nest(0, doc)''')], 'C04.n')
+add('C04', 'breaker', 'hang-without-align', [(DOC, '''    return align(
+        Nest(i, validate_doc(doc))
+    )''', '''    return Nest(i, validate_doc(doc))''')], 'C04.n')
+add('C04', 'breaker', 'hang-drops-amount', [(DOC, '''    return align(
+        Nest(i, validate_doc(doc))
+    )''', '''    return align(
+        Nest(0, validate_doc(doc))
+    )''')], 'C04.n')
+add('C04', 'breaker', 'nest-negates-amount', [(DOC, '''def nest(i, doc):
+    return Nest(i, validate_doc(doc))''', '''def nest(i, doc):
+    return Nest(abs(i), validate_doc(doc))''')], 'C04')
+add('C04', 'twin', 'align-temporary', [(DOC, '''        return Nest(column - indent, doc)''', '''        extra = column - indent
+        return Nest(extra, doc)''')])
 add('C04', 'breaker', 'concat-not-reversed-best', [(L, '''            triplestack.extend(
                 (indent, mode, child)
                 for child in reversed(doc.docs)
